@@ -438,3 +438,26 @@ def run(F, S, R, tier):
         else:
             R.ok("sibling/link-directions/get_tx_ancenstors", "edges and parent lookup use the same dep set", [an[0].where()])
     R.guard("prov/rbf-dep-scope", dep_scope)
+
+    # the per-out-point reader sets of `edges.deps`: a reader is taken out of its set unconditionally, and the record goes only when the set is
+    # empty AFTER that removal. (Deciding on the size before the removal - "the last reader takes the record with it" - drops the other reader's
+    # record when the same (out-point, reader) pair is deleted twice: a dep group plus a direct dep on one of its members; round-3 seed C11-seed5.)
+    def reader_sets():
+        b = [x for x in F.bodies_of_crate("ckb_tx_pool") if re.search(r"component::edges::Edges::delete_txid_by_dep$", x.path)]
+        if not b:
+            R.bad("order/reader-set-removal/anchor-lost", "Edges::delete_txid_by_dep not found", [])
+            return
+        b = b[0]
+        R.fn(b)
+        set_rm = [c for c in b.calls if re.search(r"HashSet::<.*>::remove$", c.callee)]
+        rec_rm = [c for c in b.calls if re.search(r"OccupiedEntry::<.*>::remove(_entry)?$", c.callee)]
+        empt = [c for c in b.calls if re.search(r"HashSet::<.*>::is_empty$", c.callee)]
+        R.sites += len(set_rm) + len(rec_rm) + len(empt)
+        if not set_rm or not rec_rm:
+            R.bad("order/reader-set-removal/anchor-lost", "delete_txid_by_dep no longer removes the id from the set / the record from the map in this form", [b.where()])
+        elif all(any(b.dominates(s_.bb, r_.bb) for s_ in set_rm) for r_ in rec_rm) and empt and all(any(b.dominates(s_.bb, e.bb) for s_ in set_rm) and any(b.dominates(e.bb, r_.bb) for r_ in rec_rm) for e in empt):
+            R.ok("order/reader-set-removal", "the reader leaves its set first; the record is dropped only when the set is empty after that", [set_rm[0].where()])
+        else:
+            R.bad("order/reader-set-removal", "delete_txid_by_dep decides whether to drop the record before (or without) removing the reader from the set, or removes the reader only on one side: "
+                  "deleting the same (out-point, reader) pair twice drops the other readers' record", [rec_rm[0].where()])
+    R.guard("order/reader-set-removal", reader_sets)
